@@ -182,3 +182,25 @@ def kwarg(call, name):
         if k.arg == name:
             return k.value
     return None
+
+
+def truth_under(test, pol, pred):
+    """Given that `test` evaluated to `pol`, is the sub-expression selected by pred known to be
+    truthy (True), known falsy (False), or unknown (None)?"""
+    if pred(test):
+        return pol
+    if isinstance(test, ast.UnaryOp) and isinstance(test.op, ast.Not):
+        r = truth_under(test.operand, not pol, pred)
+        return r
+    if isinstance(test, ast.BoolOp):
+        if isinstance(test.op, ast.And) and pol is True:
+            for v in test.values:
+                r = truth_under(v, True, pred)
+                if r is not None:
+                    return r
+        if isinstance(test.op, ast.Or) and pol is False:
+            for v in test.values:
+                r = truth_under(v, False, pred)
+                if r is not None:
+                    return r
+    return None
